@@ -212,7 +212,8 @@ def generate(seed, tier, batch):
     # invalid operations: (segment index after which / inside which they are attempted)
     invalid = []
     for _ in range(r.choice([0, 1, 1, 2, 3])):
-        kind = r.choice(["fe_dead", "fe_unknown", "fe_dup", "fe_del_dead", "bad_successor", "indep_successor", "indep_successor", "raw_dead", "raw_unknown", "raw_del_dead"])
+        kind = r.choice(["fe_dead", "fe_unknown", "fe_dup", "fe_del_dead", "bad_successor", "indep_successor", "indep_successor", "raw_dead", "raw_unknown", "raw_del_dead",
+                         "fe_negative", "append_executed"])
         invalid.append({"kind": kind, "after_seg": r.randrange(nseg), "pick": r.random(), "op": r.choice(["Dgate", "Rgate", "BSgate", "MeasureX", "LossChannel"])})
     script = {"backend": backend, "opts": opts, "segs": segs, "call": r.choice(["list", "seq"]), "invalid": invalid,
               "reset_between": r.random() < 0.25, "subset_state": r.random() < 0.3, "tape": seed, "foreign_first": r.random() < 0.25}
@@ -776,6 +777,10 @@ def invalid_ops(script, w, simenv, eng, progs, model, seg_index, feats, rejected
                             idx = model.nxt + int(pick * 3)
                             what = "gate on never-created mode %d" % idx
                             _apply_gate(sfops, inv["op"], [idx] + ([regs[alive[0]]] if inv["op"] == "BSgate" else []))
+                        elif kind == "fe_negative":
+                            idx = -(1 + int(pick * 3))
+                            what = "gate on subsystem %d (negative integers are not subsystem indices)" % idx
+                            _apply_gate(sfops, inv["op"] if inv["op"] != "BSgate" else "Dgate", [idx])
                         elif kind == "fe_dup":
                             what = "two-mode gate on the same mode twice"
                             sfops.BSgate(0.3, 0.1) | (regs[alive[0]], regs[alive[0]])
@@ -803,6 +808,24 @@ def invalid_ops(script, w, simenv, eng, progs, model, seg_index, feats, rejected
                     rejected[0] += 1
                     w.probes["invalid_rejected_at_run"] += 1
                     return True_after_failed_run(w)
+            elif kind == "append_executed":
+                # the user re-enters the context of the program the engine has just executed and appends a register operation: an executed
+                # program is locked; accepting the command would change the shared register without telling the simulator
+                tgt = progs[-1]
+                n_before = len(tgt.circuit)
+                reg_before = [(k_, r_.active) for k_, r_ in tgt.reg_refs.items()]
+                what = "%s appended to an already executed program" % ("Del" if pick < 0.5 or len(alive) < 1 else "New")
+                try:
+                    with tgt.context as q_:
+                        if pick < 0.5 and alive:
+                            sfops.Del | tgt.reg_refs[alive[0]]
+                        else:
+                            sfops.New(1)
+                except Exception as ex:  # noqa
+                    raised = ex
+                if raised is None or len(tgt.circuit) != n_before or [(k_, r_.active) for k_, r_ in tgt.reg_refs.items()] != reg_before:
+                    w.violation("invalid-rejected", "accepted" if raised is None else "front-end-appended-anyway", {"what": what, "kind": kind}, feats + ["kind=" + kind])
+                    return False
             elif kind == "bad_successor":
                 # a program whose initial register does not match the engine's current one
                 n_wrong = len(progs[-1].reg_refs) + 1
